@@ -1,11 +1,16 @@
 import Bluebell.Convert
 import Bluebell.Lemmas.EidInv
 import Bluebell.Props.C13
+import Bluebell.Lemmas.ToXmlText
 /-!
 # C03 — no text is lost, duplicated or invented on the way to XML
 
 `iterText x` is the concatenation of all text nodes of `x` in document order (lxml's `itertext`).
-Proved for every tree (the stages after the dict tree):
+Proved for every dict tree: `C03_xml_building_keeps_text` — whenever the XML generator succeeds on an item
+(any type, any nesting, any attachment context, any generator state) the in-order text of the element
+it returns is exactly the text the item carries (`itemText`: num, heading, subheading, `from`, children,
+in the order they are written).
+Proved for every tree (the stages after XML building):
 * `C03_merge_keeps_text` — merging adjacent text children (what the element maker does) keeps the text;
 * `C03_normalise_keeps_text` — `normalise` removes only elements without child nodes: the text is unchanged;
 * `C03_unreferenced_block_keeps_text` — turning unused footnote blocks into paragraphs keeps the text of
@@ -139,6 +144,22 @@ theorem C03_examples :
     bodyText (convert testUris "" "SEC 1. - Heading **bold**\n  SUBHEADING sub\n  text {{^sup}} more{{FOOTNOTE 1}} end\n  FOOTNOTE 1\n    note\n" "act")
       = "1.Heading boldsubtext sup morenote end" ∧
     bodyText (convert testUris "" "ITEMS\n  intro\n  ITEM (a) - h\n    x\n  wrap\n" "statement") = "intro(a)hxwrap" := by
+  decide +kernel
+
+/-- XML building (`item_to_xml_*`, all node types, heading/num/subheading/from handling, the
+intro/hcontainer/wrapUp grouping, attachments) neither drops, duplicates nor invents text. -/
+theorem C03_xml_building_keeps_text (u : Uris) (parent : Option String) (fuel : Nat) (item : Item)
+    (st st' : GenState) (x : Xml) (h : itemToXml u parent fuel item st = (.ok x, st')) :
+    iterText x = itemText item :=
+  itemToXml_text u parent fuel item st st' x h
+
+/-- non-vacuity: a hierarchical item with num, heading and mixed children is converted, and its text is as stated -/
+example :
+    let item := Item.node "hier" "section" none
+      (some [.node "content" "p" none (some [.text "a ", .node "inline" "b" none (some [.text "b"]) none none none none none]) none none none none none,
+             .node "hier" "subsection" none (some [.node "content" "p" none (some [.text "c"]) none none none none none]) (some "(1)") none none none none])
+      (some "1.") (some [.text "Title"]) none none none
+    (itemToXml testUris none 50 item {}).1.toOption.map iterText = some "1.Titlea b(1)c" ∧ itemText item = "1.Titlea b(1)c" := by
   decide +kernel
 
 end Bluebell
